@@ -2,7 +2,7 @@
 import numpy as np
 from harness import wavecheck as wk, waveoracle as wo, wavesim_corr as wc, logicsim_corr as lc, simcheck as sk
 
-THEOREMS = ['C05_hazard_sound_op', 'C05_no_change_no_edge', 'C05_init_final_wave', 'C05_init_final_logic8']
+THEOREMS = ['C05_hazard_sound_op', 'C05_no_change_no_edge', 'C05_init_final_wave', 'C05_init_final_logic8', 'C05_logic8_predicts_wave']
 
 
 def stim_codes(k):
